@@ -67,6 +67,34 @@ func c16(c *Ctx) {
 	r.Extra["census_discharged"] = d
 	r.Extra["census_accepted"] = a
 
+	// ---- R16.W: the loop must not wait for itself ------------------------------------------------
+	r.Rule("R16.W", "the receive goroutine is registered in routineswg (Add/Done): nothing reachable from it may Wait on that group", 1)
+	{
+		tr2 := an.NewTracer()
+		registered := false
+		for _, g := range entries {
+			for _, cs := range an.Calls(g) {
+				if cs.Name == "(*sync.WaitGroup).Done" && strings.HasSuffix(tr2.OriginString(cs.Common.Args[0]), "mtproto.MTProto.routineswg") {
+					registered = true
+				}
+			}
+		}
+		var waits []string
+		for _, f := range fns {
+			for _, cs := range an.Calls(f) {
+				if cs.Name == "(*sync.WaitGroup).Wait" && strings.HasSuffix(tr2.OriginString(cs.Common.Args[0]), "mtproto.MTProto.routineswg") {
+					path := c.Graph().PathTo(entries[0], c.inRepo, func(x *ssa.Function) bool { return x == f })
+					waits = append(waits, an.ShortName(f)+" at "+c.pos(cs.Pos())+" via "+strings.Join(path, " → "))
+				}
+			}
+		}
+		if !registered {
+			r.Hold("R16.W", "self-join", c.pos(start.Pos()), "the receive goroutine is not counted in routineswg")
+		} else {
+			r.Check(len(waits) == 0, "R16.W", "self-join", c.pos(start.Pos()), "routineswg.Wait() reachable from the goroutine that routineswg counts (it would wait for itself: the loop stops for ever on the first reconnect): "+strings.Join(waits, "; "))
+		}
+	}
+
 	// ---- R16.D ----------------------------------------------------------------------------------
 	pr := c.fn("R16.D", load.RootMod, "*MTProto", "processResponse")
 	if pr != nil {
